@@ -5,11 +5,12 @@
 EXTENDS RedirectSig, Json, IOUtils, TLCExt
 Traces == JsonDeserialize(IOEnv.TRACE_FILE)
 VARIABLES tid, l
-tvars == <<slot, held, wire, last, tid, l>>
+tvars == <<gen, loaded, slot, held, wire, last, tid, l>>
 Ev == Traces[tid][l]
 Act == \/ Ev.op = "Obtain" /\ Obtain(Ev.e, Ev.alg)
        \/ Ev.op = "Sign" /\ Sign(Ev.e) /\ last'.key = Ev.key /\ last'.alg = Ev.alg
        \/ Ev.op = "SignNow" /\ SignNow(Ev.e, Ev.alg) /\ last'.key = Ev.key
+       \/ Ev.op = "Rekey" /\ Rekey(Ev.e)
        \/ Ev.op = "Verify" /\ Verify(Ev.e, Ev.idx, Ev.cert, "none") /\ last'.ok = Ev.ok
 TraceInit == Init /\ tid \in 1..Len(Traces) /\ l = 1 /\ TLCSet(tid, 0)
 TraceNext == /\ l <= Len(Traces[tid]) /\ Act /\ l' = l + 1 /\ tid' = tid /\ TLCSet(tid, l)
